@@ -19,7 +19,8 @@ LEAN_MODULES = ["HierArc.Props.C05"]
 MODELS = ["FLCDM", "FwCDM", "w0waCDM", "oLCDM"]
 MODES = ["sampledInterp", "sampledExact", "fixedInterp", "fixedExact", "tabulated"]
 EXACT_MODES = ("sampledExact", "fixedExact")
-LTYPES = ["DdtGaussian", "Mag", "DSPL"]
+LTYPES = ["DdtGaussian", "Mag", "DSPL", "TDMag", "TDMagMagnitude"]
+MAGLIKE = ("Mag", "TDMag", "TDMagMagnitude")     # the types that carry a source brightness (lens-side distance modulus)
 C_KMS = 299792.458
 
 TOL_EXACT = 1e-6        # exact modes vs the Friedmann reference / the model (astropy = external engine)
@@ -235,6 +236,14 @@ def lens_kwargs(case, ref_ddt=None):
                     magnification_model=np.array([1.0, 2.0]), cov_magnification_model=0.1 * np.eye(2))
     elif lt == "DSPL":
         base.update(z_source2=case["zs2"], beta_dspl=1.2, sigma_beta_dspl=0.01)
+    elif lt == "TDMag":
+        base.update(time_delay_measured=np.array([10.0, 25.0]), cov_td_measured=np.eye(2), amp_measured=np.array([1.0, 2.0, 1.5]),
+                    cov_amp_measured=0.1 * np.eye(3), fermat_diff=np.array([0.1, 0.25]), magnification_model=np.array([1.0, 2.0, 1.5]),
+                    cov_model=0.01 * np.eye(5), magnitude_zero_point=20)
+    elif lt == "TDMagMagnitude":
+        base.update(time_delay_measured=np.array([10.0, 25.0]), cov_td_measured=np.eye(2), magnitude_measured=np.array([21.0, 20.3, 20.6]),
+                    cov_magnitude_measured=0.01 * np.eye(3), fermat_diff=np.array([0.1, 0.25]), magnification_model=np.array([0.0, -0.75, -0.44]),
+                    cov_model=0.01 * np.eye(5))
     else:
         raise ValueError(lt)
     return base
@@ -349,7 +358,7 @@ def range_error_expected(case, mode, site):
         return False
     zmax = z_max_of(lens_kwargs(case))
     used = {"angular_diameter_distances": [case["zd"], case["zs"]] if case["ltype"] != "DSPL" else [],
-            "luminosity_distance_modulus": [case["zs"], case["za"]] if case["ltype"] == "Mag" else [],
+            "luminosity_distance_modulus": [case["zs"], case["za"]] if case["ltype"] in MAGLIKE else [],
             "beta_dsp": [case["zd"], case["zs"], case["zs2"]] if case["ltype"] == "DSPL" else []}
     used["likelihood"] = used["angular_diameter_distances"]
     return any(z > zmax for z in used.get(site, []))
@@ -435,7 +444,7 @@ def oracle(case, stats=None):
         # --- modulus difference
         m = o.get("luminosity_distance_modulus")
         if m and "err" not in m:
-            if lt != "Mag":
+            if lt not in MAGLIKE:
                 if m["mod"] != 0:
                     fails.append(("gate:luminosity_distance_modulus:%s" % lt, "returned %r" % m["mod"]))
             else:
@@ -488,7 +497,7 @@ def oracle(case, stats=None):
     # known-findings file can name exactly them; everything else in tabulated mode keeps its signature.
     ok0 = 1.0 - p[1] - p[2]
     if ok0 < 0 and fails:
-        ztop = max(z for z in (zd, zs, zs2 if lt == "DSPL" else zs, za if lt == "Mag" else zs))
+        ztop = max(z for z in (zd, zs, zs2 if lt == "DSPL" else zs, za if lt in MAGLIKE else zs))
         if math.sqrt(-ok0) * ref_integral(p, 0, ztop) > math.pi / 2:
             fails = [(("tabulated-closed-beyond-equator:" + sg) if "tabulated" in sg else sg, txt) for sg, txt in fails]
     return fails, obs, ref
@@ -530,7 +539,7 @@ def gen_case(rng, i):
         zs = zd + rng.choice([rng.uniform(0.05, 1.0), rng.uniform(0.2, 3.0)])
         if zs > 4.8:
             continue
-        lt = LTYPES[(i // 4) % 3]
+        lt = LTYPES[(i // 4) % len(LTYPES)]
         if lt == "DSPL":
             zs2 = rng.choice([zs + rng.uniform(0.1, 2.0), rng.uniform(zd + 0.05, zs)])  # either ordering
             zs2 = min(zs2, 5.0)
@@ -638,7 +647,7 @@ def gen_stub(rng):
     pick = lambda: rng.choice(SPECIAL + [rng.uniform(100, 3000)] * 6)  # noqa: E731
     zd, zs, za = 0.5, 1.5, 0.1
     return {"zd": zd, "zs": zs, "za": za, "dd": pick(), "ds": pick(), "dds": pick(), "da": pick(),
-            "ltype": rng.choice(["DdtGaussian", "Mag"])}
+            "ltype": rng.choice(["DdtGaussian", "Mag", "TDMagMagnitude", "TDMag"])}
 
 
 def stub_oracle(c):
@@ -657,7 +666,7 @@ def stub_oracle(c):
     m = o["luminosity_distance_modulus"]
     if "err" in m:
         fails.append(("sanitise:raised", "luminosity_distance_modulus raised %s" % m["msg"]))
-    elif c["ltype"] == "Mag" and not math.isfinite(m["mod"]) and not any(
+    elif c["ltype"] in MAGLIKE and not math.isfinite(m["mod"]) and not any(
             d == float("inf") or (math.isfinite(d) and d > 1e300) for d in (c["ds"], c["da"])):
         # (a distance of +inf / > 1e300 Mpc overflows (1+z)^2 * 1.8e308 in IEEE arithmetic: outside the
         #  R theorem `lumMod_arg_pos`, recorded in notes/C05.md; the property speaks of the returned distances)
@@ -1112,7 +1121,7 @@ def run(ctx, res):
                     res.disagree("sanitised %s: impl %r model %r" % (key, a[key], b2f(m[key])),
                                  {"kind": "stub", "case": c})
         lm = o["luminosity_distance_modulus"]
-        if "err" not in lm and c["ltype"] == "Mag":
+        if "err" not in lm and c["ltype"] in MAGLIKE:
             if not close(b2f(m["mod"]), lm["mod"], 1e-12, atol=1e-11):
                 res.disagree("sanitised modulus: impl %r model %r" % (lm["mod"], b2f(m["mod"])),
                              {"kind": "stub", "case": c})
